@@ -555,6 +555,58 @@ theorem rejection_accept_source_eq_model (cands : List Cand) (lus : List EV) :
     (Gen.PoolTx.rejection_accept (logWeights cands) lus cands).map some = (populateRejection cands lus).pool := by
   simp only [Gen.PoolTx.rejection_accept, populateRejection, select_zipWith_eq_rejectMask]
 
+theorem EV.gt_nan_right (x : EV) : EV.gt x .nan = false := by cases x <;> rfl
+
+theorem select_zipWith_eq_acceptMask {α : Type} (lw : List EV) (c : EV) (lus : List EV) (x : List α) :
+    select (List.zipWith (fun a b => EV.gt a b) (lw.map (fun w => EV.sub w c)) lus) x =
+      select (acceptMask lw c lus) x := by
+  induction lw generalizing lus x with
+  | nil => cases lus <;> cases x <;> simp [acceptMask, select]
+  | cons w ws ih =>
+    cases lus with
+    | nil =>
+      have hfalse : ∀ (ws' : List EV) (y : List α), select (acceptMask ws' c []) y = [] := by
+        intro ws'
+        induction ws' with
+        | nil => intro y; cases y <;> simp [acceptMask, select]
+        | cons a as iha =>
+          intro y
+          cases y with
+          | nil => simp [acceptMask, select]
+          | cons y0 ys => simp [acceptMask, select, acceptFlow, EV.gt_nan_right, iha]
+      cases x with
+      | nil => simp [select]
+      | cons x0 xs => simpa [select] using (hfalse (w :: ws) (x0 :: xs)).symm
+    | cons u us =>
+      cases x with
+      | nil => simp [acceptMask, select]
+      | cons x0 xs =>
+        simp only [List.map_cons, List.zipWith_cons_cons, acceptMask, List.headD_cons, List.tail_cons, select, acceptFlow]
+        rw [ih us xs]
+
+theorem select_length_eq_countTrue {α : Type} (m : List Bool) (x : List α) (h : m.length ≤ x.length) :
+    (select m x).length = countTrue m := by
+  induction m generalizing x with
+  | nil => cases x <;> simp [select, countTrue]
+  | cons b bs ih =>
+    cases x with
+    | nil => simp at h
+    | cons x0 xs =>
+      have h' : bs.length ≤ xs.length := by simpa using h
+      cases b <;> simp [select, countTrue, ih xs h'] <;> simp [countTrue] at * <;> omega
+
+/-- one batch of the plain branch of `FlowProposal.populate`, generated from the source: it writes
+`x[accept][: min(N - n_accepted, #accepted)]` at `n_accepted` and adds the number accepted — exactly the step of the model's
+`plainLoop` (`plainAccepted` with no `log_q` truncation) -/
+theorem plain_batch_step_source_eq_model (N nAcc : Nat) (arr : List (Option Cand)) (x : List Cand) (lus : List EV) :
+    Gen.PoolTx.plain_batch_step N nAcc arr (logWeights x) lus x =
+      (let xa := select (acceptMask (logWeights x) (npMax (logWeights x)) lus) x
+       (sliceWrite arr nAcc (min (N - nAcc) xa.length) xa, nAcc + xa.length)) := by
+  have hlen : (List.zipWith (fun a b => EV.gt a b) ((logWeights x).map (fun w => EV.sub w (npMax (logWeights x)))) lus).length
+      ≤ x.length := by
+    simp [logWeights]
+  simp only [Gen.PoolTx.plain_batch_step, ← select_length_eq_countTrue _ x hlen, select_zipWith_eq_acceptMask]
+
 example : Gen.PoolTx.rejection_accept [.fin 0, .fin (-1), .ninf] [.fin (-1/2), .fin (-1/2), .ninf] [10, 11, 12] = [10] := by
   decide +kernel
 
